@@ -251,3 +251,17 @@ package receiver
 //@   ensures[C15] [gid-field] err == nil && rt.Opts.PreserveGid ==> result.Gid == ite(flSameGid(flags), old(last.Gid), i32At(data(rt.Conn.Reader), fePGid(data(rt.Conn.Reader), flags, old(select(ghost.rpos, data(rt.Conn.Reader))), rt.Opts.PreserveUid)))
 //@   ensures[C15,C14] [rdev-field-present-as-sent] err == nil && rdevOnWire(rt.Opts.PreserveDevices, rt.Opts.PreserveSpecials, result.Mode) ==> result.Rdev == ite(flSameRdev(flags), old(last.Rdev), i32At(data(rt.Conn.Reader), fePRdev(data(rt.Conn.Reader), flags, old(select(ghost.rpos, data(rt.Conn.Reader))), rt.Opts.PreserveUid, rt.Opts.PreserveGid)))
 //@   ensures[C15,C14] [bytes-consumed-without-link-and-checksum] err == nil && !(rt.Opts.PreserveLinks && mdIsLink(result.Mode)) && !rt.Opts.AlwaysChecksum ==> select(ghost.rpos, data(rt.Conn.Reader)) == fePRdev(data(rt.Conn.Reader), flags, old(select(ghost.rpos, data(rt.Conn.Reader))), rt.Opts.PreserveUid, rt.Opts.PreserveGid) + ite(rdevOnWire(rt.Opts.PreserveDevices, rt.Opts.PreserveSpecials, result.Mode) && !flSameRdev(flags), 4, 0)
+
+// ---------------------------------------------------------------- C11: entry types
+// Device nodes are reproduced under --devices, fifos and sockets under
+// --specials (the same predicate that puts their device number on the wire),
+// symlinks under -l with the target that was sent.
+//@ ghost devCalls: int
+//@ ghost symlinks: int
+//@ func (*receiver.Transfer).createDevice
+//@   modifies ghost.devCalls
+//@   ensures[ghostdef] [counted] ghost.devCalls == old(ghost.devCalls) + 1
+//@ func (*receiver.Transfer).recvGenerator
+//@   at[C11] (*receiver.Transfer).createDevice: assert [node-only-under-its-option] rdevOnWire(rt.Opts.PreserveDevices, rt.Opts.PreserveSpecials, f.Mode)
+//@   ensures[C11] [node-made-under-its-option] err == nil && old(rt.Dest) != "" && !old(rt.Opts.DryRun) && rdevOnWire(old(rt.Opts.PreserveDevices), old(rt.Opts.PreserveSpecials), old(f.Mode)) && !(old(rt.Opts.PreserveLinks) && mdIsLink(old(f.Mode))) ==> ghost.devCalls == old(ghost.devCalls) + 1
+//@   at[C11] receiver.symlink: assert [symlink-target-as-sent] arg0 == rt.DestRoot && arg1 == f.LinkTarget && arg2 == f.Name && rt.Opts.PreserveLinks && mdIsLink(f.Mode)
